@@ -658,13 +658,24 @@ fn build_av01_fmp4(config: &FragmentConfig) -> Vec<u8> {
 }
 
 fn build_av1c_fmp4(config: &FragmentConfig) -> Vec<u8> {
+    let seq_header: &[u8] = config.av1_sequence_header.as_deref().unwrap_or(&[]);
+    // Profile, level, tier, bit depth and chroma fields come from the supplied sequence header
+    let av1 = crate::codec::av1::extract_av1_config(seq_header).unwrap_or_default();
+
     let mut payload = Vec::new();
-    payload.push(1); // version
-    payload.push(0); // seq_profile, seq_level_idx_0, seq_tier_0, high_bitdepth, twelve_bit, monochrome, chroma_subsampling_x, chroma_subsampling_y, chroma_sample_position, reserved
-    payload.push(0); // initial_presentation_delay_present, reserved
-    if let Some(seq_header) = &config.av1_sequence_header {
-        payload.extend_from_slice(seq_header);
-    }
+    payload.push(0x81); // marker (1) + version (7)
+    payload.push(((av1.seq_profile & 0x07) << 5) | (av1.seq_level_idx & 0x1f));
+    payload.push(
+        ((av1.seq_tier & 0x01) << 7)
+            | (if av1.high_bitdepth { 0x40 } else { 0 })
+            | (if av1.twelve_bit { 0x20 } else { 0 })
+            | (if av1.monochrome { 0x10 } else { 0 })
+            | (if av1.chroma_subsampling_x { 0x08 } else { 0 })
+            | (if av1.chroma_subsampling_y { 0x04 } else { 0 })
+            | (av1.chroma_sample_position & 0x03),
+    );
+    payload.push(0); // reserved (3) + initial_presentation_delay_present (1) + reserved (4)
+    payload.extend_from_slice(seq_header); // configOBUs
     build_box(b"av1C", &payload)
 }
 
